@@ -182,8 +182,13 @@ pub async fn set_node<C: Config>(
     n: usize,
     v: i64,
 ) -> qbice::SetInputResult {
-    assert_eq!(ctx.prog.kind(n), Kind::In, "set on non-input node");
-    s.set_input(In(n as u16), v).await
+    // a value may also be committed for a query that an executor computed so far ("pinning"): the query is an
+    // input from then on
+    match ctx.prog.kind(n) {
+        Kind::In => s.set_input(In(n as u16), v).await,
+        Kind::Nm => s.set_input(Nm(n as u16), v).await,
+        k => panic!("set on a node of kind {k:?}"),
+    }
 }
 
 /// The engine's id of program node `i` (same hasher seed as the engine).
